@@ -168,9 +168,21 @@ def run(ctx):
             f, site = r
             L = dslgen.Layout(rng, wild=rng.choice([0.0, 0.0, 0.3]), comments=0.1)
             items.append((kind, site, dslgen.render_file(f, L), f0))
+    # the same violation behind a very long line (70 000 bytes of comment right after the header): nothing that follows a
+    # long line may be lost to the checks
+    longs = []
+    for (kind, site, d, f0) in items[:: max(1, len(items) // 12)]:
+        ls = d.split("\n")
+        if d.startswith("model\n") or d.startswith("module "):
+            hdr = 2 if d.startswith("model\n") else 1
+            longs.append((kind, dict(site, long_line=True), "\n".join(ls[:hdr] + ["# " + "c" * 70000] + ls[hdr:]), f0))
+    items = items + longs
     docs = [x[2] for x in items]
     raw = tf.impl_dsl(ctx, docs, True)
-    ir = tf.correspond_dsl(ctx, docs, True, "injected")
+    # (the documents with a very long line are judged on the implementation alone: the extracted model's pre-pass is
+    #  quadratic in the length of a line and would dominate the run)
+    nl = len(items) - len(longs)
+    ir = tf.correspond_dsl(ctx, docs[:nl], True, "injected") + [tf.norm_impl_dsl(r) for r in raw[nl:]]
     for (kind, site, d, f0), a, r in zip(items, ir, raw):
         ctx.note_case(d, kind not in ("both-headers", "no-header"))
         ctx.count("kind_" + kind)
